@@ -3,14 +3,14 @@
 use schemars::schema::Schema;
 use typify_impl::{TypeDetails, TypeSpace};
 
-pub fn handle(line: &str) -> String {
+fn handle(line: &str) -> String {
     let schema: Schema = match serde_json::from_str(line) {
         Ok(s) => s,
         Err(_) => return "unsupported".to_string(),
     };
     let mut ts = TypeSpace::default();
     match ts.add_type(&schema) {
-        Err(e) => format!("err {}", crate::util::err_kind(&e)),
+        Err(e) => format!("err {}", tvh::err_kind(&e)),
         Ok(id) => {
             let ty = ts.get_type(&id).unwrap();
             let r = match ty.details() {
@@ -22,4 +22,8 @@ pub fn handle(line: &str) -> String {
             r
         }
     }
+}
+
+fn main() {
+    tvh::run_lines(handle);
 }
